@@ -46,7 +46,8 @@ def instances(tier):
         # Clustal / MSF / auto-detected readers did not finish at 3x3 within 1500 s / 8 GB (cadical): thorough tier only
         tup = [(1, 3, 2, 0)]
     else:
-        tup = [(1, 2, 2, 0), (1, 3, 2, 0), (1, 4, 2, 0b0101), (1, 3, 3, 0), (1, 5, 2, 0b01010), (1, 4, 3, 0), (3, 3, 3, 0), (2, 3, 3, 0), (0, 3, 2, 0)]
+        # first complete thorough run: FASTA 3x3 / 4x3 / 5x2, Clustal 3x3, MSF 3x3 and auto-detected 3x2 on fully arbitrary bytes gave no verdict in 3600 s / 14 GB - dropped
+        tup = [(1, 2, 2, 0), (1, 3, 2, 0), (1, 4, 2, 0b0101), (3, 2, 3, 0), (2, 2, 3, 0)]
     for rd, lines, ll, sm in tup:
         out.append(read_inst(rd, lines, ll, sm, timeout=1500 if tier == "quick" else 3600, mem_gb=8 if tier == "quick" else 14))
     # structured text with one damaged line.  Decided: a damaged body line (3-4 bytes) and a damaged Clustal header; a damaged
